@@ -1,5 +1,7 @@
 //! Scenario families.
 
+pub mod build;
+pub mod composite;
 pub mod life;
 
 pub type Scenario = fn();
@@ -12,6 +14,8 @@ pub const ALL: &[(&str, Scenario)] = &[
     ("restart", life::restart),
     ("pool", life::pool),
     ("teardown", life::teardown),
+    ("composite", composite::composite),
+    ("build", build::build),
 ];
 
 pub fn find(name: &str) -> Option<Scenario> {
